@@ -301,12 +301,42 @@ def gen_illegal(rng, sh):
     return gen_wild(rng, sh)
 
 
+def gen_stale_pin(rng, sh):
+    """recipe family (C07-F5, seeded C07-s6): the caller removes a pin of a recorded instance, re-creates the name -- with the
+    OPPOSITE pin type or another type, with or without a driver / load -- and then fills the instance"""
+    inst = rng.choice(sorted(sh.bb))
+    _, ins, outs = sh.bb[inst]
+    if not ins + outs:
+        return []
+    p = rng.choice(outs if outs and rng.random() < 0.6 else ins + outs)
+    pn = f"{inst}.{p}"
+    was_out = p in outs and not (p in ins and rng.random() < 0.5)
+    t = rng.choice(["bb_input" if was_out else "bb_output"] * 3 + ["buf", "and", "input", "not"])
+    others = [n for n in drivers(sh, t) if n != pn]
+    fi, fo = None, None
+    if t in ("bb_input", "buf", "not") and others and rng.random() < 0.7:
+        fi = pick(rng, others, 1)
+    elif t == "and" and others:
+        fi = pick(rng, others, 2)
+    if t == "bb_output" and rng.random() < 0.7:
+        fo = pick(rng, [v for v in sinks(sh) if sh.n[v][0] == "buf" and v != pn], 1) or None
+    elif t in ("buf", "and", "not", "input") and rng.random() < 0.4:
+        fo = pick(rng, [v for v in sinks(sh) if v != pn], 1) or None
+    return [["remove", rng.choice([pn, [pn]])], ["add", pn, t, fi, fo, False, False], ["fill_blackbox", inst, fill_sub(rng, ins, outs)]]
+
+
 def gen_history(rng, length, start=None):
     sh = U.Sh(start)
     ops = []
+    queue = []
     for _ in range(length):
         r = rng.random()
-        op = gen_valid(rng, sh) if r < 0.6 else gen_wild(rng, sh) if r < 0.85 else gen_illegal(rng, sh)
+        if not queue and sh.bb and rng.random() < 0.05:
+            queue = gen_stale_pin(rng, sh)
+        if queue:
+            op = queue.pop(0)
+        else:
+            op = gen_valid(rng, sh) if r < 0.6 else gen_wild(rng, sh) if r < 0.85 else gen_illegal(rng, sh)
         if op[0] == "add" and rng.random() < 0.22:
             # the flags the parsers use: missing neighbours are created / an existing node is redefined
             redef = rng.random() < 0.4
